@@ -265,4 +265,77 @@ func streamCli(o *Out, r *rand.Rand, n int, thorough bool) {
 			o.Fail(Failure{Oracle: "cli-stderr", Key: "cli-stderr-not-empty", Input: desc, Detail: stderr.String()})
 		}
 	}
+	// The file form runs the file's bytes as vm.Execute runs them, in the directory the tool was started in: a script in
+	// another directory than the current one (relative paths, load, a file named by a trailing argument), and files
+	// whose bytes are not ASCII text (Latin-1, a lone 0xff, a byte order mark).
+	fileCases := []struct {
+		name   string
+		script string // bytes of scripts/x.ank
+	}{
+		{"getwd", "os = import(\"os\")\nwd, err = os.Getwd()\nprintln(wd)"},
+		{"read-relative-arg", "ioutil = import(\"io/ioutil\")\nb, err = ioutil.ReadFile(args[0])\nif err != nil {\nthrow err\n}\nprintln(len(toString(b)))"},
+		{"load-relative", "load(\"lib.ank\")\nprintln(libv + 1)"},
+		{"stat-script-dir", "os = import(\"os\")\nfi, err = os.Stat(\"x.ank\")\nprintln(err == nil)"},
+		{"latin1-in-comment", "# caf\xe9\nprintln(1)"},
+		{"latin1-in-string", "println(len(\"\xe9t\xe9\"))"},
+		{"lone-ff-then-error", "println(\"a\xffb\" != \"\")\nundefinedFunction()"},
+		{"byte-order-mark", "\xef\xbb\xbfprintln(1)"},
+		{"utf8-text", "println(\"h\xc3\xa9llo\", len(\"\xe6\x97\xa5\"))"},
+		{"nul-byte-in-string", "println(len(\"a\x00b\"))"},
+	}
+	cwd0, _ := os.Getwd()
+	for k, fc := range fileCases {
+		wd := filepath.Join(tmp, fmt.Sprintf("wd%d", k))
+		if err := os.MkdirAll(filepath.Join(wd, "scripts"), 0o755); err != nil {
+			panic(err)
+		}
+		_ = os.WriteFile(filepath.Join(wd, "data.txt"), []byte("one\ntwo\nthree\n"), 0o644)
+		_ = os.WriteFile(filepath.Join(wd, "lib.ank"), []byte("libv = 41\n"), 0o644)
+		_ = os.WriteFile(filepath.Join(wd, "scripts", "x.ank"), []byte(fc.script), 0o644)
+		args := []string{"data.txt"}
+		// library verdict: the same bytes, the same current directory, the same args
+		var libErr error
+		_ = os.Chdir(wd)
+		libOut := captureStdout(func() {
+			e := env.NewEnv()
+			_ = e.Define("args", args)
+			core.Import(e)
+			_, libErr = vm.Execute(e, nil, fc.script)
+		})
+		_ = os.Chdir(cwd0)
+		cmd := exec.Command(bin, "scripts/x.ank", "data.txt")
+		cmd.Dir = wd
+		var stdout, stderr bytes.Buffer
+		cmd.Stdout, cmd.Stderr = &stdout, &stderr
+		runErr := cmd.Run()
+		exit := 0
+		if ee, ok := runErr.(*exec.ExitError); ok {
+			exit = ee.ExitCode()
+		} else if runErr != nil {
+			o.Fail(Failure{Oracle: "cli-run", Key: "cli-exec-failed", Input: fc.script, Detail: runErr.Error()})
+			continue
+		}
+		o.Sum.Evaluations++
+		o.Sum.Hist["file-form:"+fc.name]++
+		body := stdout.String()
+		diag := 0
+		if ls := strings.Split(strings.TrimSuffix(body, "\n"), "\n"); body != "" && (strings.HasPrefix(ls[len(ls)-1], "Execute error:") || strings.HasPrefix(ls[len(ls)-1], "ReadFile error:")) {
+			diag = 1
+			body = strings.Join(ls[:len(ls)-1], "\n")
+			if len(ls) > 1 {
+				body += "\n"
+			}
+		}
+		desc := fmt.Sprintf("[file form, started in the parent directory as `anko scripts/x.ank data.txt`; case %s] %q", fc.name, fc.script)
+		wantExit := 0
+		if libErr != nil {
+			wantExit = 4
+		}
+		if exit != wantExit || (libErr != nil) != (diag == 1) {
+			o.Fail(Failure{Oracle: "cli-verdict-agrees", Key: "cli-file-verdict:" + fc.name, Input: desc,
+				Detail: fmt.Sprintf("binary exit=%d (diagnostic lines %d, stdout %q), vm.Execute on the same bytes in the same directory: error=%v", exit, diag, stdout.String(), libErr)})
+		} else if body != libOut {
+			o.Fail(Failure{Oracle: "cli-stdout", Key: "cli-file-stdout:" + fc.name, Input: desc, Detail: fmt.Sprintf("binary printed %q, library run printed %q", body, libOut)})
+		}
+	}
 }
